@@ -73,9 +73,15 @@ def specs(draw):
         name = vname(i)
         indep_names = [nd['name'] for nd in nodes if nd['kind'] != 'vec']
         if i == 0 or not indep_names or draw(st.integers(0, 9)) < 3:
-            kind = draw(st.sampled_from(['ind', 'ind', 'ind', 'disc', 'vec']))
-            if kind == 'vec' and mode == 'grader' and False:
-                kind = 'ind'
+            kind = draw(st.sampled_from(['ind', 'ind', 'ind', 'disc', 'vec', 'const-dep']))
+            if kind == 'const-dep':
+                # "dependence on constants": a dependent variable whose formula mentions constants only (the user constant
+                # c0 = 42 and the defaults) - its value is the same in every sample OF THIS PROBLEM
+                tree = draw(total_trees(['c0']))
+                if 'c0' not in X.names_of(tree)['vars']:
+                    tree = ['add', tree, ['var', 'c0']]
+                nodes.append({'name': name, 'kind': 'dep', 'tree': tree})
+                continue
             nodes.append({'name': name, 'kind': kind})
         else:
             k = draw(st.integers(1, min(3, len(indep_names))))
@@ -126,7 +132,7 @@ def build(spec):
         else:
             samplers[nd['name']] = DependentSampler(formula=X.render(nd['tree']))
     # cyclic / dangling variants
-    deps_nodes = [nd for nd in nodes if nd['kind'] == 'dep']
+    deps_nodes = [nd for nd in nodes if nd['kind'] == 'dep' and X.names_of(nd['tree'])['vars'] & set(table)]
     v = spec['variant']
     involved = None
     if v and not deps_nodes and v != 'selfloop':
@@ -175,7 +181,7 @@ def depth_info(spec):
             depth[nd['name']] = 0
         else:
             ds = X.names_of(nd['tree'])['vars'] & set(table)
-            depth[nd['name']] = 1 + max(depth[d] for d in ds)
+            depth[nd['name']] = 1 + max([depth[d] for d in ds] or [0])
     # diamond: some dependent reaches the same ancestor through two different direct dependencies
     anc = {}
     for nd in spec['nodes']:
@@ -221,7 +227,7 @@ def check_sample(spec, table, sample, extra_expected, rec, where):
             rec.cls('vector')
     env = {k: (complex(v) if isinstance(v, complex) else float(v)) for k, v in sample.items()
            if isinstance(v, (int, float, complex)) and not isinstance(v, bool)}
-    env.update({'pi': math.pi, 'e': math.e, 'i': 1j, 'j': 1j})
+    env.update({'pi': math.pi, 'e': math.e, 'i': 1j, 'j': 1j, 'c0': 42.0})
     for nd in nodes:
         if nd['kind'] != 'dep':
             continue
